@@ -3709,7 +3709,7 @@ impl<'a> Parser<'a> {
                     }
                 };
 
-                if self.peek_token().token != Token::EOF {
+                if !matches!(self.peek_token().token, Token::EOF | Token::SemiColon) {
                     let (a, q) = self.parse_as_query()?;
                     has_as = a;
                     query = Some(q);
@@ -3742,7 +3742,7 @@ impl<'a> Parser<'a> {
                         }
                     };
 
-                    if self.peek_token() != Token::EOF {
+                    if !matches!(self.peek_token().token, Token::EOF | Token::SemiColon) {
                         let (a, q) = self.parse_as_query()?;
                         has_as = a;
                         query = Some(q);
